@@ -32,6 +32,7 @@ type SiteSpec struct {
 	C      *Clause
 	Hits   int
 	Min    int // minimum number of sites expected (anchor guard)
+	Why    string
 }
 
 type FuncContract struct {
@@ -55,6 +56,7 @@ type FuncContract struct {
 	File     string
 	Line     int
 	Ghosts   []*Clause
+	Applies  []*Apply
 }
 
 type Pred struct {
@@ -63,6 +65,8 @@ type Pred struct {
 	Body   SExpr
 	Src    string
 	Pkg    string
+	Rec    bool // recursive specification function (emitted as an uninterpreted function with an unfolding axiom)
+	Res    Sort
 }
 
 type Whitelist struct {
@@ -99,6 +103,7 @@ type Contracts struct {
 	Files  []string
 	Errors []string
 	UFuns  map[string]*UFun
+	Lemmas map[string]*Lemma
 }
 
 type UFun struct {
@@ -109,10 +114,10 @@ type UFun struct {
 
 var clauseRe = regexp.MustCompile(`^([A-Za-z0-9_.]+):\s*(.*)$`)
 
-var keywords = map[string]bool{"func": true, "props": true, "safety": true, "requires": true, "ensures": true, "loop": true, "site": true, "inline": true, "trusted": true, "pred": true, "callers": true, "writers": true, "dyncall": true, "chan": true, "cover": true, "pure": true, "ufun": true, "preserves": true, "noauto": true, "package": true, "layout": true, "callsarg": true}
+var keywords = map[string]bool{"func": true, "props": true, "safety": true, "requires": true, "ensures": true, "loop": true, "site": true, "inline": true, "trusted": true, "pred": true, "callers": true, "writers": true, "dyncall": true, "chan": true, "cover": true, "pure": true, "ufun": true, "preserves": true, "noauto": true, "package": true, "layout": true, "callsarg": true, "specfn": true, "lemma": true, "apply": true, "assume": true}
 
 func loadContracts(root string) (*Contracts, error) {
-	cs := &Contracts{Funcs: map[string]*FuncContract{}, Preds: map[string]*Pred{}, UFuns: map[string]*UFun{}}
+	cs := &Contracts{Funcs: map[string]*FuncContract{}, Preds: map[string]*Pred{}, UFuns: map[string]*UFun{}, Lemmas: map[string]*Lemma{}}
 	var files []string
 	filepath.Walk(root, func(p string, info os.FileInfo, err error) error {
 		if err == nil && !info.IsDir() && filepath.Base(p) == "zz_contracts_verif.go" {
@@ -289,8 +294,9 @@ func (cs *Contracts) parseFile(path, pkg string) error {
 				return err
 			}
 			cur.Sites = append(cur.Sites, &SiteSpec{Kind: kind, Target: target, C: c, Min: min})
-		case "pred":
-			// pred name(a, b) = expr
+		case "pred", "specfn":
+			// pred name(a, b) = expr          (macro)
+			// specfn name(a, b) Int = expr    (recursive specification function)
 			i := strings.Index(rest, "=")
 			j := strings.Index(rest, "(")
 			k := strings.Index(rest, ")")
@@ -312,10 +318,58 @@ func (cs *Contracts) parseFile(path, pkg string) error {
 				return fmt.Errorf("%s:%d: %v", path, d.line, err)
 			}
 			pr := &Pred{Name: name, Params: params, Body: e, Src: body, Pkg: pkg}
+			if kw == "specfn" {
+				pr.Rec = true
+				pr.Res = SInt
+				if so := strings.TrimSpace(rest[k+1 : i]); so != "" {
+					pr.Res = Sort(so)
+				}
+			}
 			cs.Preds[pkg+"."+name] = pr
 			if _, dup := cs.Preds[name]; !dup {
 				cs.Preds[name] = pr
 			}
+		case "assume":
+			// assume after <callee> label: expr because <reason>
+			// An explicit, listed assumption about a library call's effect.
+			if cur == nil || len(fs) < 4 || fs[1] != "after" {
+				return fmt.Errorf("%s:%d: bad assume (want: assume after <callee> label: expr because reason)", path, d.line)
+			}
+			r2 := strings.TrimSpace(strings.TrimPrefix(strings.TrimSpace(strings.TrimPrefix(rest, "after")), fs[2]))
+			why := ""
+			if j := strings.LastIndex(r2, " because "); j >= 0 {
+				why = strings.TrimSpace(r2[j+9:])
+				r2 = r2[:j]
+			}
+			c, err := mkClause(r2, d.line)
+			if err != nil {
+				return err
+			}
+			cur.Sites = append(cur.Sites, &SiteSpec{Kind: "assume-after", Target: fs[2], C: c, Min: 1, Why: why})
+		case "lemma":
+			l, err := parseLemma(rest, pkg, path, d.line, props)
+			if err != nil {
+				return err
+			}
+			cs.Lemmas[pkg+"."+l.Name] = l
+			if _, dup := cs.Lemmas[l.Name]; !dup {
+				cs.Lemmas[l.Name] = l
+			}
+		case "apply":
+			// apply post|loopN lemma(args)
+			if cur == nil || len(fs) < 3 {
+				return fmt.Errorf("%s:%d: bad apply", path, d.line)
+			}
+			src := strings.TrimSpace(strings.TrimPrefix(rest, fs[1]))
+			e, err := parseSpec(src)
+			if err != nil {
+				return fmt.Errorf("%s:%d: %v", path, d.line, err)
+			}
+			call, ok := e.(*SCall)
+			if !ok {
+				return fmt.Errorf("%s:%d: apply needs lemma(args)", path, d.line)
+			}
+			cur.Applies = append(cur.Applies, &Apply{Where: fs[1], Call: call, Src: src})
 		case "ufun":
 			// ufun name(Sort, Sort) Sort
 			j := strings.Index(rest, "(")
